@@ -147,7 +147,7 @@ fn panic_kind(msg: &str) -> String {
 
 /// Small fixed contracts. Every one has a `pragma solidity` line and no free function (detectors that abort
 /// without them are other properties' business). Several share patterns so that merging matters.
-const SOURCES: [&str; 12] = [
+const SOURCES: [&str; 13] = [
     // 0: FloatingPragma, OptimalComparison
     "// SPDX-License-Identifier: MIT\npragma solidity ^0.8.0;\n\ncontract A0 {\n    uint256 public total;\n\n    function cmp(uint256 x, uint256 y) public view returns (bool) {\n        return x >= y;\n    }\n}\n",
     // 1: UnsafeERC20Operation, PrivateFuncLeadingUnderscore (public function with a leading underscore)
@@ -171,6 +171,8 @@ const SOURCES: [&str; 12] = [
     // 10 and 11: two sources of EXACTLY the same byte length with different findings (OptimalComparison / PayableFunction lines differ)
     "pragma solidity 0.8.17;\n\ncontract E {\n    function f(uint256 x, uint256 y) public pure returns (bool) {\n        return x >= y;\n    }\n}\n",
     "pragma solidity 0.8.17;\n\ncontract E {\n\n    function f(uint256 x, uint256 y) public pure returns (bool) {\n        return x > y;\n    }\n}\n",
+    // 12: an ordinary source that merely MENTIONS test tooling (an import path and a comment): eligibility is decided by the name alone
+    "pragma solidity ^0.8.0;\n\n// helpers shared with forge-std/Test.sol and hardhat/console.sol\nimport \"forge-std/Test.sol\";\n\ncontract A12 {\n    uint256 private hidden;\n\n    function _cmp(uint256 x, uint256 y) public pure returns (bool) {\n        return x >= y;\n    }\n}\n",
 ];
 
 #[derive(Clone, Copy, PartialEq, Eq, PartialOrd, Ord, Hash, Debug)]
@@ -1038,8 +1040,8 @@ const INELIGIBLE: [&str; 26] = [
     ".gitignore", "Makefile", "my test.t.sol", "\u{fc}n\u{ef}.t.sol", "\u{5408}\u{7ea6}.SOL", "a.sol.t.sol", "x.sol.T.SOL",
 ];
 const PLAIN_INELIGIBLE: [&str; 6] = ["a.t.sol", "README.md", "notes.txt", "A.SOL", "b.t.sol", "a.sol.txt"];
-const DIR_NAMES: [&str; 22] = [
-    "lib", "src", "d.sol", "d.t.sol", "D.SOL", "sub dir", "\u{5b50}", "x", "y", "z", "test", ".hidden", "n0", "n1", "n2", "n3", "n4", "n5", "n6", "n7", "n8", "n9",
+const DIR_NAMES: [&str; 26] = [
+    "node_modules", "out", "test", ".git", "cache", "lib", "src", "d.sol", "d.t.sol", "D.SOL", "sub dir", "\u{5b50}", "x", "y", "z", ".hidden", "n0", "n1", "n2", "n3", "n4", "n5", "n6", "n7", "n8", "n9",
 ];
 /// labellings (names + contents) per enumerated shape
 const LABELLINGS: usize = 3;
